@@ -13,7 +13,7 @@ PROPS = {
     "C04": dict(verus=["U-NTH", "U-DHS"], kani=["U-SEL", "U-STK"], bounded=["U-PARSE-B"], findings=[]),
     "C05": dict(verus=["U-TS", "U-DHS"], kani=["U-HVEC", "U-STK"], bounded=[], findings=[]),
     "C06": dict(verus=["U-SM", "U-TS"], kani=[], bounded=["U-PARSE-B"], findings=[]),
-    "C07": dict(verus=["U-TS", "U-SER"], kani=[], bounded=[], findings=[]),
+    "C07": dict(verus=["U-TS", "U-SER"], kani=[], bounded=["U-PARSE-B"], findings=[]),
     "C08": dict(verus=["U-ESCQ"], kani=["U-ESC"], bounded=["U-PARSE-B"], findings=[]),
     "C09": dict(verus=["U-TS", "U-SM"], kani=[], bounded=["U-PARSE-B"], findings=[]),
     "C10": dict(verus=["U-TS"], kani=["U-MEM"], bounded=["U-PARSE-B"], findings=[]),
@@ -22,7 +22,7 @@ PROPS = {
     "C13": dict(verus=["U-TS"], kani=["U-ESC"], bounded=["U-PARSE-B"], findings=[]),
     "C14": dict(verus=["U-SM", "U-TS", "U-SER"], kani=[], bounded=["U-PARSE-B"], findings=[]),
     "C15": dict(verus=["U-SM", "U-TS", "U-SER", "U-NTH", "U-ESCQ", "U-DHS"], kani=["U-MEM", "U-TBS", "U-HVEC", "U-ESC"], bounded=[], findings=[]),
-    "C16": dict(verus=["U-SM"], kani=["U-SEL", "U-STK"], bounded=[], findings=[]),
+    "C16": dict(verus=["U-SM"], kani=["U-SEL", "U-STK"], bounded=["U-PARSE-B"], findings=[]),
 }
 
 LEVEL = {p: "proof" for p in PROPS}
